@@ -21,7 +21,7 @@ PROP = "C14"
 ENGINE = "netsim"
 LEVEL = "exploration"
 TIERS = {
-    "quick": {"runs": 6000, "budget_s": 75},
+    "quick": {"runs": 40000, "budget_s": 75},
     "thorough": {"runs": 400000, "budget_s": 1500},
 }
 DET_EVERY = 50
